@@ -153,6 +153,40 @@ impl<'a> Sim<'a> {
         self.rts.insert(addr, rt);
     }
 
+    /// Runs `f` inside the fs / io_uring context of the host at `addr`, the
+    /// way [`Sim::step`] runs the host's tick: dropping the host's tasks runs
+    /// destructors of its files and rings, which need that context.
+    #[allow(unused_variables)]
+    fn in_host_io_context<R>(world: &RefCell<World>, addr: IpAddr, f: impl FnOnce() -> R) -> R {
+        #[cfg(feature = "unstable-fs")]
+        let (fs_arc, now) = {
+            let world = world.borrow();
+            let host = world.hosts.get(&addr).expect("missing host");
+            (Arc::clone(&host.fs), host.timer.since_epoch_at_tick_start())
+        };
+        #[cfg(feature = "unstable-io_uring")]
+        let iou_arc = {
+            let world = world.borrow();
+            let host = world.hosts.get(&addr).expect("missing host");
+            Arc::clone(&host.io_uring)
+        };
+        #[cfg(feature = "unstable-fs")]
+        let _fs_guard = turmoil_fs::enter(
+            &fs_arc,
+            turmoil_fs::EnterCtx {
+                now,
+                #[cfg(feature = "unstable-barriers")]
+                on_corruption: Some(&crate::fs_corruption_hook),
+                #[cfg(not(feature = "unstable-barriers"))]
+                on_corruption: None,
+            },
+        );
+        #[cfg(feature = "unstable-io_uring")]
+        let _iou_guard =
+            turmoil_io_uring::host::enter(&iou_arc, turmoil_io_uring::host::EnterCtx { now });
+        f()
+    }
+
     /// Crashes the resolved hosts. Nothing will be running on the matched hosts
     /// after this method. You can use [`Sim::bounce`] to start the hosts up
     /// again.
@@ -187,7 +221,7 @@ impl<'a> Sim<'a> {
                     }
                 });
 
-                rt.crash();
+                Self::in_host_io_context(&self.world, h, || rt.crash());
 
                 // Walk the per-subsystem crash hooks in lock order.
                 // Each subsystem owns its own state and exposes a
@@ -212,22 +246,26 @@ impl<'a> Sim<'a> {
 
     /// Bounces the resolved hosts. The software is restarted.
     pub fn bounce(&mut self, addrs: impl ToIpAddrs) {
-        self.run_with_hosts(addrs, |addr, rt| {
-            rt.bounce();
+        self.run_with_hosts(addrs, |world, addr, rt| {
+            Self::in_host_io_context(world, addr, || rt.bounce());
 
             tracing::trace!(target: TRACING_TARGET, addr = ?addr, "Bounce");
         });
     }
 
     /// Run `f` with the resolved hosts at `addrs` set on the world.
-    fn run_with_hosts(&mut self, addrs: impl ToIpAddrs, mut f: impl FnMut(IpAddr, &mut Rt)) {
+    fn run_with_hosts(
+        &mut self,
+        addrs: impl ToIpAddrs,
+        mut f: impl FnMut(&RefCell<World>, IpAddr, &mut Rt),
+    ) {
         let hosts = self.world.borrow_mut().lookup_many(addrs);
         for h in hosts {
             let rt = self.rts.get_mut(&h).expect("missing host");
 
             self.world.borrow_mut().current = Some(h);
 
-            World::enter(&self.world, || f(h, rt));
+            World::enter(&self.world, || f(&self.world, h, rt));
         }
 
         self.world.borrow_mut().current = None;
